@@ -543,10 +543,7 @@ func RunCheck(opts *CheckOpts) int {
 		if i < 0 {
 			continue
 		}
-		key := o.Fn + o.Name[i:]
-		if j := strings.Index(key, "/"); j >= 0 {
-			key = key[:j]
-		}
+		key := o.Fn + strings.SplitN(o.Name[i:], "/", 2)[0]
 		if seenRet[key] {
 			continue
 		}
@@ -579,6 +576,11 @@ func RunCheck(opts *CheckOpts) int {
 		canaries = append(canaries, &Obligation{Name: fmt.Sprintf("%s#canary%s.back%d", ShortKey(o.Fn), loop, n), Kind: "canary", Fn: o.Fn, Clause: "path to this back edge is consistent", Pos: o.Pos, NDefs: o.NDefs, Reach: o.Reach, Goal: False, Gen: o.Gen, Canary: true})
 	}
 	all = append(all, canaries...)
+	if os.Getenv("VP_DEBUG_CANARY") != "" {
+		for _, c := range canaries {
+			fmt.Println("CANARY", c.Name)
+		}
+	}
 	var re *regexp.Regexp
 	if opts.Only != "" {
 		re = regexp.MustCompile(opts.Only)
@@ -775,6 +777,9 @@ func decide(o *Obligation, cfg *SolverCfg, known []KnownFinding, prop string, op
 		cs := Script(o.asserts(false), true) // unsliced: a contradiction anywhere on the path counts
 		o.seeded = false
 		termMu.Unlock()
+		if opts.KeepSMT != "" {
+			os.WriteFile(filepath.Join(opts.KeepSMT, sanitize(o.Name)+".canary.smt2"), []byte(cs), 0o644)
+		}
 		r0 := SolveFirstOnly(&c0, cs)
 		st := "ok"
 		if r0.Status == "unsat" {
